@@ -150,31 +150,30 @@ def trigOff : Nat → Int
   | 0 => 0
   | s + 1 => trigOff s + mdctN / 2 ^ (s + 1)
 
-/-- `clt_mdct_backward_c(l, in, out, window, overlap, shift, stride, arch)`.  `fout` hits of the FFT are elements of
-    `(kiss_fft_cpx*)(out+(overlap>>1))`: complex element `k` is `out[overlap/2 + 2k]`, `out[overlap/2 + 2k + 1]`. -/
-def mdctHits (shift stride ov : Int) : List Hit :=
-  let N := mdctNs shift
-  let N2 := N / 2
-  let N4 := N / 4
-  let t0 := trigOff shift.toNat
-  let st := kfft shift
-  -- :289-311 pre-rotate
-  (loop 0 N4 fun i =>
-    let rev := st.bitrev.getD i.toNat 0
-    [⟨.bitrev, i⟩, ⟨.inp, stride * (2 * i)⟩, ⟨.inp, stride * (N2 - 1) - stride * (2 * i)⟩, ⟨.trig, t0 + i⟩, ⟨.trig, t0 + N4 + i⟩,
-     ⟨.out, ov / 2 + 2 * rev + 1⟩, ⟨.out, ov / 2 + 2 * rev⟩]) ++
+/-- The body of `clt_mdct_backward_c` once `N` (after the shifts), the offset `t0` of `trig` and the FFT state
+    `st = l->kfft[shift]` are known.  `fout` hits of the FFT are elements of `(kiss_fft_cpx*)(out+(overlap>>1))`: complex
+    element `k` is `out[overlap/2 + 2k]`, `out[overlap/2 + 2k + 1]`. -/
+def mdctHitsAt (N t0 : Int) (st : FftState) (stride ov : Int) : List Hit :=
+  -- :289-311 pre-rotate (N2 = N/2, N4 = N/4)
+  (loop 0 (N / 4) fun i =>
+    [⟨.bitrev, i⟩, ⟨.inp, stride * (2 * i)⟩, ⟨.inp, stride * (N / 2 - 1) - stride * (2 * i)⟩, ⟨.trig, t0 + i⟩, ⟨.trig, t0 + N / 4 + i⟩,
+     ⟨.out, ov / 2 + 2 * st.bitrev.getD i.toNat 0 + 1⟩, ⟨.out, ov / 2 + 2 * st.bitrev.getD i.toNat 0⟩]) ++
   -- :313 opus_fft_impl(l->kfft[shift], (kiss_fft_cpx*)(out+(overlap>>1)))
   ((fftImplHits st).flatMap fun h =>
     match h.arr with
     | .fout => [⟨.out, ov / 2 + 2 * h.idx⟩, ⟨.out, ov / 2 + 2 * h.idx + 1⟩]
     | _ => [h]) ++
   -- :317-351 post-rotate: yp0 = out+ov/2+2i, yp1 = out+ov/2+N2-2-2i
-  (loop 0 ((N4 + 1) / 2) fun i =>
-    [⟨.out, ov / 2 + 2 * i + 1⟩, ⟨.out, ov / 2 + 2 * i⟩, ⟨.trig, t0 + i⟩, ⟨.trig, t0 + N4 + i⟩,
-     ⟨.out, ov / 2 + N2 - 2 - 2 * i + 1⟩, ⟨.out, ov / 2 + N2 - 2 - 2 * i⟩,
-     ⟨.trig, t0 + (N4 - i - 1)⟩, ⟨.trig, t0 + (N2 - i - 1)⟩]) ++
+  (loop 0 ((N / 4 + 1) / 2) fun i =>
+    [⟨.out, ov / 2 + 2 * i + 1⟩, ⟨.out, ov / 2 + 2 * i⟩, ⟨.trig, t0 + i⟩, ⟨.trig, t0 + N / 4 + i⟩,
+     ⟨.out, ov / 2 + N / 2 - 2 - 2 * i + 1⟩, ⟨.out, ov / 2 + N / 2 - 2 - 2 * i⟩,
+     ⟨.trig, t0 + (N / 4 - i - 1)⟩, ⟨.trig, t0 + (N / 2 - i - 1)⟩]) ++
   -- :354-370 TDAC mirror: xp1 = out+overlap-1-i, yp1 = out+i, wp1 = window+i, wp2 = window+overlap-1-i
   (loop 0 (ov / 2) fun i => [⟨.out, ov - 1 - i⟩, ⟨.out, i⟩, ⟨.win, ov - 1 - i⟩, ⟨.win, i⟩])
+
+/-- `clt_mdct_backward_c(l, in, out, window, overlap, shift, stride, arch)` on the static mode's `mdct_lookup`. -/
+def mdctHits (shift stride ov : Int) : List Hit :=
+  mdctHitsAt (mdctNs shift) (trigOff shift.toNat) (kfft shift) stride ov
 
 /-! ## denormalise_bands (celt/bands.c:209-280) -/
 
@@ -192,8 +191,10 @@ def denormBands (M : Int) : Nat → Int → Int → List Hit
       denormBands M n (i + 1) (pos + cnt)
 
 /-- `denormalise_bands(m, X, freq, bandLogE, start, end, M, downsample, silence)`, float build.  `freq` is written
-    through the running pointer `f`: first `M*eBands[start]` zeros, then band by band, finally
-    `OPUS_CLEAR(&freq[bound], N-bound)`. -/
+    through the running pointer `f`: first `M*eBands[start]` zeros (`eBands[start]` is re-read by the loop condition),
+    then band by band through `f` / `x` (`denormBands`, the position carried, not recomputed), finally
+    `OPUS_CLEAR(&freq[bound], N-bound)` (a `memset` of `N-bound` elements: `bound > N` would be a negative size, listed
+    as the hit `freq[N]` so that the in-bounds theorem fails instead of holding vacuously). -/
 def denormHits (start end_ M ds : Int) (silence : Bool) : List Hit :=
   let N := M * shortMdctSize                                                                 -- :218
   let bound0 := M * eB end_                                                                   -- :219
@@ -202,12 +203,9 @@ def denormHits (start end_ M ds : Int) (silence : Bool) : List Hit :=
   let st := if silence then 0 else start
   let en := if silence then 0 else end_
   [⟨.eBands, end_⟩, ⟨.eBands, st⟩] ++                                                         -- :219, :228
-  (loop 0 (M * eB st) fun i => [⟨.eBands, st⟩, ⟨.freq, i⟩]) ++                                -- :229-230
-  (loop st en fun i =>                                                                        -- :231-277
-    [⟨.eBands, i⟩, ⟨.eBands, i + 1⟩, ⟨.bandE, i⟩, ⟨.eMeans, i⟩] ++
-    -- j = M*eBands[i]; do { *f++ = *x++ * g; } while (++j < band_end): f - freq = x - X = j
-    (loop (M * eB i) (max (M * eB (i + 1)) (M * eB i + 1)) fun j => [⟨.X, j⟩, ⟨.freq, j⟩])) ++
-  (loop bound N fun i => [⟨.freq, i⟩])                                                        -- :279
+  (loop 0 (M * eB st) fun i => [⟨.eBands, st⟩, ⟨.freq, i⟩]) ++ [⟨.eBands, st⟩] ++             -- :229-230
+  denormBands M (en - st).toNat st (M * eB st) ++                                             -- :231-277
+  (if bound > N then [⟨.freq, N⟩] else loop bound N fun i => [⟨.freq, i⟩])                    -- :279
 
 /-! ## pitch_search (celt/pitch.c:302-401) -/
 
@@ -250,6 +248,11 @@ def psearchHits (len maxPitch bA bB b0 : Int) : List Hit :=
   findBestPitch .xcorr .y (len / 2) (maxPitch / 2) ++                                            -- :385
   [⟨.bestp, 0⟩] ++                                                                               -- :392
   (if b0 > 0 ∧ b0 < maxPitch / 2 - 1 then [⟨.xcorr, b0 - 1⟩, ⟨.xcorr, b0⟩, ⟨.xcorr, b0 + 1⟩] else [])   -- :395-397
+
+/-- pitch.c:323-325  `ALLOC(x_lp4, len>>2, …); ALLOC(y_lp4, lag>>2, …); ALLOC(xcorr, max_pitch>>1, …)`: element counts of the
+    three stack arrays (0 for the other arrays). -/
+def psearchAlloc (len maxPitch : Int) : CArr → Int
+  | .xlp4 => len / 4 | .ylp4 => (len + maxPitch) / 4 | .xcorr => maxPitch / 2 | _ => 0
 
 /-! ## Extents (for the tie): smallest and largest index touched per array -/
 
